@@ -25,6 +25,159 @@ type c11Case struct {
 	Graph     gen.GraphCase `json:"graph"`     // documents already relocated: the root's canonical URL is Graph.Root
 	Spellings []string      `json:"spellings"` // equivalent spellings of the root location (the first one is the canonical URL)
 	Cwd       string        `json:"cwd"`       // working directory the relative spellings were made for ("" = none used)
+	Elems     []c11Elem     `json:"elems,omitempty"`
+}
+
+// c11Elem: one element of the root handed, under every spelling of the root location, to one of the entry
+// points that take a base location instead of a root document.
+type c11Elem struct {
+	Entry string `json:"entry"` // ExpandSchemaWithBasePath, ExpandParameter, ExpandResponse, Resolve{Ref,Parameter,Response,PathItem}WithBase
+	Ptr   string `json:"ptr"`   // pointer of the element in the root document
+}
+
+var c11Entries = map[model.Kind][]string{
+	model.KSchema:   {"ExpandSchemaWithBasePath", "ResolveRefWithBase"},
+	model.KParam:    {"ExpandParameter", "ResolveParameterWithBase"},
+	model.KResponse: {"ExpandResponse", "ResolveResponseWithBase"},
+	model.KPathItem: {"ResolvePathItemWithBase"},
+}
+
+// c11RunElem runs one base-location entry point with the root location spelled as given.
+func c11RunElem(c c11Case, e c11Elem, spelling string) (r c11Run) {
+	l := newLoader(c.Graph.Docs, nil)
+	old := spec.PathLoader
+	spec.PathLoader = l.load // (ExpandParameter and ExpandResponse take no options: the package-level loader)
+	defer func() { spec.PathLoader = old }()
+	g := c.Graph.Graph()
+	node, err := g.Get(model.Pos{Doc: c.Graph.Root, Ptr: e.Ptr})
+	if err != nil {
+		r.panic = "harness: " + err.Error()
+		return
+	}
+	nb := mustJSON(node)
+	opts := &spec.ExpandOptions{RelativeBase: spelling, PathLoader: l.load}
+	var out any
+	func() {
+		defer func() {
+			if rc := recover(); rc != nil {
+				r.panic = fmt.Sprint(rc)
+			}
+		}()
+		var err error
+		switch e.Entry {
+		case "ExpandSchemaWithBasePath":
+			var v spec.Schema
+			if json.Unmarshal(nb, &v) != nil {
+				r.panic = "harness: element does not decode"
+				return
+			}
+			err = spec.ExpandSchemaWithBasePath(&v, nil, opts)
+			out = &v
+		case "ExpandParameter":
+			var v spec.Parameter
+			if json.Unmarshal(nb, &v) != nil {
+				r.panic = "harness: element does not decode"
+				return
+			}
+			err = spec.ExpandParameter(&v, spelling)
+			out = &v
+		case "ExpandResponse":
+			var v spec.Response
+			if json.Unmarshal(nb, &v) != nil {
+				r.panic = "harness: element does not decode"
+				return
+			}
+			err = spec.ExpandResponse(&v, spelling)
+			out = &v
+		default:
+			ref, rerr := spec.NewRef(gen.FragmentOf(e.Ptr))
+			if rerr != nil {
+				r.panic = "harness: " + rerr.Error()
+				return
+			}
+			switch e.Entry {
+			case "ResolveRefWithBase":
+				out, err = spec.ResolveRefWithBase(nil, &ref, opts)
+			case "ResolveParameterWithBase":
+				out, err = spec.ResolveParameterWithBase(nil, ref, opts)
+			case "ResolveResponseWithBase":
+				out, err = spec.ResolveResponseWithBase(nil, ref, opts)
+			case "ResolvePathItemWithBase":
+				out, err = spec.ResolvePathItemWithBase(nil, ref, opts)
+			default:
+				r.panic = "harness: unknown entry " + e.Entry
+				return
+			}
+		}
+		if err != nil {
+			r.err = err.Error()
+		}
+	}()
+	if opts.RelativeBase != spelling {
+		r.panic = fmt.Sprintf("the caller's RelativeBase was changed from %q to %q", spelling, opts.RelativeBase)
+	}
+	r.loads = l.requestSet()
+	if r.panic == "" && r.err == "" {
+		r.out, _ = json.Marshal(out)
+	}
+	return
+}
+
+// checkC11Elems: the base-location entry points answer alike under every spelling. Results are compared
+// byte-wise when the element's reference graph is acyclic or the entry point is a resolution (both are
+// deterministic); for a cyclic expansion, where the cut-points depend on map iteration, success and the set
+// of documents read are compared.
+func checkC11Elems(f *vstat.Failure, c c11Case, gin *model.Graph, texts map[string]map[string]bool) {
+	for _, e := range c.Elems {
+		kind := model.KSchema
+		for k, es := range c11Entries {
+			for _, n := range es {
+				if n == e.Entry {
+					kind = k
+				}
+			}
+		}
+		exact := strings.HasPrefix(e.Entry, "Resolve") || gin.Acyclic([]model.Elem{{P: model.Pos{Doc: c.Graph.Root, Ptr: e.Ptr}, K: kind}})
+		var ref c11Run
+		for i, sp := range c.Spellings {
+			run := c11RunElem(c, e, sp)
+			where := fmt.Sprintf("%s of %s with base location %q (canonical %s)", e.Entry, e.Ptr, sp, c.Graph.Root)
+			if run.panic != "" {
+				f.Add("PANIC", where, "%s", run.panic)
+				return
+			}
+			for _, u := range run.loads {
+				if p := loaderURLProblem(u); p != "" {
+					f.Add("NOT-CANONICAL", where, "the loader was asked for %q, which %s", u, p)
+				}
+				if texts[urlKey(u)] == nil {
+					texts[urlKey(u)] = map[string]bool{}
+				}
+				texts[urlKey(u)][u] = true
+			}
+			if i == 0 {
+				ref = run
+				if run.err != "" {
+					f.Add("ERROR", where, "failed from the canonical location on a graph whose $refs all resolve: %s", run.err)
+					break
+				}
+				continue
+			}
+			if (run.err == "") != (ref.err == "") {
+				f.Add("SPELLING-CHANGES-RESULT", where, "error with this spelling: %q; with the canonical one: %q", run.err, ref.err)
+				continue
+			}
+			if got, want := externalOnly(run.loads, c.Graph.Root), externalOnly(ref.loads, c.Graph.Root); strings.Join(got, " ") != strings.Join(want, " ") {
+				f.Add("SPELLING-CHANGES-LOADS", where, "documents requested with this spelling: %q; with the canonical one: %q", got, want)
+			}
+			if exact && !bytes.Equal(run.out, ref.out) {
+				f.Add("SPELLING-CHANGES-RESULT", where, "result %s with this spelling, %s with the canonical one", clip(run.out), clip(ref.out))
+			}
+		}
+		if len(f.Atoms) > 3 {
+			return
+		}
+	}
 }
 
 // relocate moves the documents below file:///w/ to another prefix (another scheme/host or below the working directory).
@@ -221,6 +374,9 @@ func oracleC11(c c11Case) (*vstat.Failure, bool) {
 			break
 		}
 	}
+	if len(f.Atoms) == 0 {
+		checkC11Elems(f, c, gin, texts)
+	}
 	return f, external
 }
 
@@ -338,6 +494,15 @@ func genC11(t *rapid.T) c11Case {
 		c.Spellings = append(c.Spellings, loc)
 	}
 	sort.Strings(c.Spellings[1:])
+	// up to three elements of the root for the entry points that take a base location
+	if els := rootElems(c.Graph.Graph(), c.Graph.Root); len(els) > 0 {
+		for i, n := 0, 1+gen.Uniform(t, "nelems", 3); i < n; i++ {
+			el := els[gen.Uniform(t, "elem", len(els))]
+			if es := c11Entries[el.K]; len(es) > 0 {
+				c.Elems = append(c.Elems, c11Elem{Entry: es[gen.Uniform(t, "entry", len(es))], Ptr: el.P.Ptr})
+			}
+		}
+	}
 	return c
 }
 
@@ -348,6 +513,10 @@ func TestC11(t *testing.T) {
 		f, external := oracleC11(c)
 		r.Eval()
 		r.Count("spellings expanded", len(c.Spellings))
+		r.Count("element calls (base-location entry points)", len(c.Elems)*len(c.Spellings))
+		for _, e := range c.Elems {
+			r.Label("entry=" + e.Entry)
+		}
 		r.LabelIf(c.Cwd != "", "relative to the working directory")
 		r.LabelIf(strings.HasPrefix(c.Graph.Root, "http"), "http(s) location")
 		r.LabelIf(strings.HasPrefix(c.Graph.Root, "file"), "file location")
